@@ -3,7 +3,9 @@ PROP = dict(
     theorems=[
         # single-node lemmas (Appendix F)
         "Shangrla.C04.fba_sound", "Shangrla.C04.fba_min", "Shangrla.C04.valid_order_not_excluded",
-        "Shangrla.C04.subsumes_sound", "Shangrla.Raire.chain",
+        "Shangrla.C04.subsumes_sound", "Shangrla.Raire.nebSubsumes_sound", "Shangrla.Raire.nenSubsumes_sound",
+        "Shangrla.Raire.PostInv.dedupeInsert", "Shangrla.Raire.sortAssertions_perm", "Shangrla.Raire.PostInv.subsumePass",
+        "Shangrla.Raire.chain",
         # loop invariants S1-S3 (+ O1-O3 carried in the same structure) and their preservation
         "Shangrla.Raire.manageNode_spec", "Shangrla.Raire.manageNode_anp", "Shangrla.Raire.pruneChecks_spec",
         "Shangrla.Raire.performDive_spec", "Shangrla.Raire.expandLoop_spec", "Shangrla.Raire.mainLoop_spec",
